@@ -33,6 +33,8 @@ impl SonicKZG10 {
         supported_hiding_bound + 1 <= pp.powers_of_g@.len(),
     ensures
         supported_degree > pp.powers_of_g@.len() - 1 ==> res is Err,   // name=sonic_pc.trim.err_if_degree_beyond_parameters props=C09,C17
+        // ... and only then: in-domain requests are answered
+        res is Err ==> (supported_degree > pp.powers_of_g@.len() - 1 || (enforced_degree_bounds is Some && exists|i: int| 0 <= i < enforced_degree_bounds->Some_0@.len() && (#[trigger] enforced_degree_bounds->Some_0@[i]) > supported_degree)),   // name=sonic_pc.trim.only_out_of_domain_requests_are_refused props=C17,C09
         (res is Ok && enforced_degree_bounds is Some) ==> (forall|i: int| 0 <= i < enforced_degree_bounds->Some_0@.len() ==> (#[trigger] enforced_degree_bounds->Some_0@[i]) <= supported_degree),   // name=sonic_pc.trim.err_if_bound_beyond_supported_degree props=C04,C17
         res is Ok ==> res->Ok_0.0.powers_of_g@ =~= pp.powers_of_g@.subrange(0, supported_degree + 1),   // name=sonic_pc.trim.exactly_the_requested_powers props=C09
         res is Ok ==> res->Ok_0.0.powers_of_gamma_g@.len() == supported_hiding_bound + 2,
@@ -78,6 +80,16 @@ impl SonicKZG10 {
                 if bounds0->Some_0@.len() > 0 { assert(bounds0->Some_0@.contains(bounds0->Some_0@[0])); assert(eb.contains(bounds0->Some_0@[0])); }
             }
         }
+//@before /if highest_enforced_degree_bound > supported_degree \{/
+                    proof {
+                        if highest_enforced_degree_bound > supported_degree {
+                            let eb = enforced_degree_bounds@;
+                            assert(eb.contains(eb[eb.len() - 1]));
+                            assert(bounds0->Some_0@.contains(highest_enforced_degree_bound));
+                            let j = choose|j: int| 0 <= j < bounds0->Some_0@.len() && bounds0->Some_0@[j] == highest_enforced_degree_bound;
+                            assert(bounds0->Some_0@[j] > supported_degree);
+                        }
+                    }
 //@after /if highest_enforced_degree_bound > supported_degree \{/
                     proof {
                         let eb = enforced_degree_bounds@;
